@@ -123,6 +123,7 @@ func Verif_C01_InProcKinds() {
 		payloads = append(payloads, verifPayload(fmt.Sprintf("payload#%d", i)))
 	}
 	reqPayload := verifPayload("request-payload")
+	handlerReuses := zv.Bool("sender-reuses-its-message-object")
 	hooks := &verifHooks{}
 	hooks.Unary = func(tag string, ctx context.Context, req *verifMsg) (*verifMsg, error) {
 		zv.Assert(bytes.Equal(req.Payload, reqPayload) && req.Count == 7, "handler-receives-request-intact")
@@ -136,8 +137,15 @@ func Verif_C01_InProcKinds() {
 				return nil
 			}
 			zv.Assert(bytes.Equal(m.Payload, reqPayload), "handler-receives-request-intact")
+			reuse := &verifMsg{}
 			for i := 0; i < n; i++ {
-				ss.SendMsg(&verifMsg{Payload: payloads[i], Count: int32(i)})
+				if handlerReuses {
+					// a handler may reuse its message once a send has returned
+					reuse.Payload, reuse.Count = payloads[i], int32(i)
+					ss.SendMsg(reuse)
+				} else {
+					ss.SendMsg(&verifMsg{Payload: payloads[i], Count: int32(i)})
+				}
 			}
 			return nil
 		}
@@ -195,8 +203,14 @@ func Verif_C01_InProcKinds() {
 			zv.Fail("stream-created")
 			return
 		}
+		creuse := &verifMsg{}
 		for i := 0; i < n; i++ {
-			cs.SendMsg(&verifMsg{Payload: payloads[i], Count: int32(i)})
+			if handlerReuses {
+				creuse.Payload, creuse.Count = payloads[i], int32(i)
+				cs.SendMsg(creuse)
+			} else {
+				cs.SendMsg(&verifMsg{Payload: payloads[i], Count: int32(i)})
+			}
 		}
 		cs.CloseSend()
 		m := &verifMsg{}
